@@ -184,6 +184,8 @@ func (e Env) l4(r *rand.Rand, v6 bool, src, dst netip.Addr, mac refdec.MAC, f *F
 		sc, dc := PortClasses[r.Intn(len(PortClasses))], PortClasses[r.Intn(len(PortClasses))]
 		if r.Intn(3) == 0 {
 			sc = PortClasses[len(PortClasses)-1]
+		} else if r.Intn(2) == 0 {
+			dc = PortClasses[len(PortClasses)-1] // the reply direction: from the service's port to the client's ephemeral port
 		}
 		sp, dp := sc.Port, dc.Port
 		if sc.Name == "other" {
